@@ -24,6 +24,7 @@ import (
 	"sort"
 	"strings"
 	"sync"
+	"sync/atomic"
 	"testing"
 	"time"
 
@@ -41,6 +42,9 @@ import (
 )
 
 type c15Assert struct{ msg string }
+
+// statistics only (never read by the harness logic)
+var c15Rejected, c15Raced, c15FaultedApplies, c15WritingApplies atomic.Int64
 
 var c15Once sync.Once
 
@@ -148,6 +152,8 @@ type c15State struct {
 
 	key, out string
 	nontriv  bool
+	evOut     string // outcome / non-triviality of the EVENT (the probes of Check overwrite out/nontriv)
+	evNontriv bool
 	bad      []hbfs.Fail
 	badSeen  map[string]bool
 }
@@ -597,6 +603,16 @@ func (s *c15State) apply(faults []c15Fault, race string, where string) {
 	}
 	s.out = fmt.Sprintf("apply faults=%d race=%v saves=%d restores=%d ok=%d rejected=%d retries=%d", len(faults), raced, s.nSave, s.nRestore, s.restoresOK, len(s.rejected), s.sleeps-sl)
 	s.nontriv = s.restoresOK > 0 || len(faults) > 0 || raced
+	c15Rejected.Add(int64(len(s.rejected)))
+	if raced {
+		c15Raced.Add(1)
+	}
+	if len(faults) > 0 {
+		c15FaultedApplies.Add(1)
+	}
+	if s.restoresOK > 0 {
+		c15WritingApplies.Add(1)
+	}
 }
 
 func (s *c15State) sendDesired() {
@@ -663,6 +679,7 @@ func c15Apply(s *c15State, e c15Ev) {
 		panic("bad op " + e.Op)
 	}
 	s.key = s.computeKey()
+	s.evOut, s.evNontriv = s.out, s.nontriv
 }
 
 func c15Enabled(s *c15State, depth int) []c15Ev {
@@ -672,15 +689,12 @@ func c15Enabled(s *c15State, depth int) []c15Ev {
 	}
 	var evs []c15Ev
 	add := func(e c15Ev) { evs = append(evs, e) }
+	// (re-sending the current contents is included: Felix's managers do that on every resync)
 	for _, v := range []string{"A1", "A2", "A3", "A4"} {
-		if s.chains["cali-A"] != v {
-			add(c15Ev{Op: "chain", Chain: "cali-A", V: v})
-		}
+		add(c15Ev{Op: "chain", Chain: "cali-A", V: v})
 	}
 	for _, v := range []string{"B1", "B2"} {
-		if s.chains["cali-B"] != v {
-			add(c15Ev{Op: "chain", Chain: "cali-B", V: v})
-		}
+		add(c15Ev{Op: "chain", Chain: "cali-B", V: v})
 	}
 	for _, c := range []string{"cali-A", "cali-B"} {
 		if s.defined(c) {
@@ -882,8 +896,8 @@ func c15Spec(cfg c15Cfg, depth int, tree bool) *hbfs.Spec[*c15State, c15Ev] {
 		Enabled:    c15Enabled,
 		Check:      c15Check,
 		Key:        func(s *c15State) string { return s.key },
-		Nontrivial: func(s *c15State) bool { return s.nontriv },
-		Outcome:    func(s *c15State) string { return s.out },
+		Nontrivial: func(s *c15State) bool { return s.evNontriv },
+		Outcome:    func(s *c15State) string { return s.evOut },
 		PanicKey:   c15PanicKey,
 		MaxDepth:   depth,
 		Workers:    6,
@@ -947,7 +961,7 @@ func TestVerif_C15(t *testing.T) {
 			c.Add("transitions", int64(len(d.History)))
 			return
 		}
-		{
+		if err := vk.Catch(func() error {
 			s := c15New(c15Cfg{Mode: "legacy", InsertMode: "insert", MaxFaults: 1})
 			h := []c15Ev{{Op: "init", Init: "foreign+stale+synced"}, {Op: "chain", Chain: "cali-A", V: "A3"}, {Op: "outside", V: "ins-top", Inv: true},
 				{Op: "apply", Faults: []c15Fault{{Kind: "restore", N: 1, Mode: "fail"}}}}
@@ -957,6 +971,12 @@ func TestVerif_C15(t *testing.T) {
 				hs = append(hs, e.String())
 			}
 			c.Sample(map[string]any{"history": hs, "kernel_after": c15Show(s.mock.Chains), "outcome": s.out, "commands": s.mock.CmdNames})
+			for _, f := range s.bad {
+				c.Violation(f.Key, map[string]any{"where": "sample history", "history": hs, "msg": f.Msg})
+			}
+			return nil
+		}); err != nil {
+			c.Violation(c15PanicKey(err.Error(), nil), map[string]any{"where": "sample history", "panic": err.Error()})
 		}
 		leg := c15Cfg{Mode: "legacy", InsertMode: "insert", MaxFaults: 1}
 		if c.Quick() {
@@ -982,5 +1002,7 @@ func TestVerif_C15(t *testing.T) {
 			hbfs.Explore(c, c15Spec(pw, 4, false))
 			hbfs.Explore(c, c15Spec(leg, 3, true))
 		}
+		c.Extra("applies_incl_probes", map[string]int64{"kernel_rejected_transactions": c15Rejected.Load(), "raced_with_other_program": c15Raced.Load(),
+			"with_injected_faults": c15FaultedApplies.Load(), "that_wrote_to_the_table": c15WritingApplies.Load()})
 	})
 }
